@@ -19,6 +19,11 @@ type VG struct {
 	NaNKeys  bool // allow NaN float map keys
 	MaxDepth int
 	heights  map[string]int
+	// shift is added to the variant index of every field value (not to the presence mask of
+	// messages): RecordsRich uses it to decorrelate "which fields are present" from "which variant
+	// a field takes" — with one index driving both, a message's map field was never both present
+	// and filled with several entries among the first dozen values.
+	shift int
 }
 
 func NewVG(c *Ctx, seed int64) *VG {
@@ -286,7 +291,7 @@ func (g *VG) Record(d *schema.Def, i, depth int) any {
 	case "struct":
 		out := make([]any, len(d.Fields))
 		for j, f := range d.Fields {
-			out[j] = g.Type(f.Type, i+j*3, depth)
+			out[j] = g.Type(f.Type, i+j*3+g.shift, depth)
 		}
 		return out
 	case "message":
@@ -309,7 +314,7 @@ func (g *VG) Record(d *schema.Def, i, depth int) any {
 		}
 		for j, f := range fs {
 			if mask&(1<<uint(j)) != 0 {
-				out[j] = map[string]any{"p": g.Type(f.Type, i+j*3+1, depth)}
+				out[j] = map[string]any{"p": g.Type(f.Type, i+j*3+1+g.shift, depth)}
 			}
 		}
 		return out
@@ -344,6 +349,29 @@ func (g *VG) Records(d *schema.Def, n int) []any {
 	for i := range out {
 		out[i] = g.Record(d, i, 0)
 	}
+	return out
+}
+
+// RecordsRich returns Records(d, n) followed by six more values in which every field is present
+// (messages) and the variant of every field value is shifted by 1..6, so that each container
+// field takes each of its variants (nil, empty, one, several, many elements) at least once
+// while everything around it is present too.
+func (g *VG) RecordsRich(d *schema.Def, n int) []any {
+	out := g.Records(d, n)
+	if out == nil {
+		return nil
+	}
+	nb := 1
+	if d.Kind == "union" {
+		nb = len(d.Branches)
+	}
+	for s := 1; s <= 6; s++ {
+		g.shift = s
+		for b := 0; b < nb && b < 4; b++ {
+			out = append(out, g.Record(d, b, 0))
+		}
+	}
+	g.shift = 0
 	return out
 }
 
